@@ -45,7 +45,7 @@ func genOverlapSteps(r *gen.Rand, cfg tcfg) []tstep {
 	var qualifying []string
 	switch {
 	case cfg.SkipFailed && !cfg.SkipOK:
-		qualifying = []string{"500", "404", "503", "err", "err503"}
+		qualifying = []string{"500", "404", "503", "err", "err503", "201>err", "302>err503"}
 	case cfg.SkipOK && !cfg.SkipFailed:
 		qualifying = []string{"200", "200", "301"}
 	}
